@@ -13,7 +13,7 @@ for ID in $IDS; do
     git -C /repo worktree remove --force "$WT"; continue
   fi
   RES=""
-  for s in 0 1 2; do
+  for s in ${SEEDS:-0 1 2}; do
     O=$(VERIF_REPO="$WT" VERIF_OUT_DIR="$OUT" VERIF_SEED=$s bin/check $PID --tier quick 2>&1); RC=$?
     N=$(echo "$O" | grep -c "^VIOLATION property=$PID")
     FIRST=$(echo "$O" | grep -m1 'clause=' | sed -E 's/ observed=.*//' | cut -c1-160 | tr '"' "'")
